@@ -6,6 +6,7 @@ import (
 	"bytes"
 	"crypto/sha256"
 	"fmt"
+	"sort"
 	"time"
 
 	"github.com/IBM/TSS/mpc/bls"
@@ -181,6 +182,62 @@ func blsCase(n, t int) harness.Case {
 					continue // equals the transposition
 				}
 				check(fmt.Sprintf("shifted-signers@%d", s), true, w.v, digest, sigs, who)
+			}
+		}
+		// digests of other shapes than a 32-byte hash: each is signed genuinely; every related digest
+		// (same first 32 bytes, zero padding, one more / one less byte) must be rejected for those
+		// shares, and the genuine pair must verify again afterwards (verifying has no side effects)
+		{
+			sub := cryptolib.IDs(n)[:t]
+			p32 := sha256.Sum256([]byte("c09-prefix"))
+			shapes := map[string][]byte{
+				"37-bytes":      append(append([]byte(nil), p32[:]...), []byte("tag-1")...),
+				"64-bytes":      append(append([]byte(nil), p32[:]...), p32[:]...),
+				"5-bytes":       []byte("short"),
+				"1-byte":        {7},
+				"31-bytes":      p32[:31],
+				"32-zero-bytes": make([]byte, 32),
+			}
+			var names []string
+			for k := range shapes {
+				names = append(names, k)
+			}
+			sort.Strings(names)
+			for _, nm := range names {
+				dg := shapes[nm]
+				var sigs [][]byte
+				for _, id := range sub {
+					sg, _ := w.signers[id].Sign(nil, dg)
+					sigs = append(sigs, sg)
+				}
+				saved := digest
+				digest = dg // the Lagrange-coincidence rule of check compares with the genuine digest
+				genuineSaved := genuine
+				genuine = nil
+				check("genuine/digest-"+nm, false, w.v, dg, sigs, sub)
+				related := map[string][]byte{
+					"last-byte-changed": append(append([]byte(nil), dg[:len(dg)-1]...), dg[len(dg)-1]^0x55),
+					"zero-appended":     append(append([]byte(nil), dg...), 0),
+					"byte-appended":     append(append([]byte(nil), dg...), 'x'),
+					"last-byte-dropped": append([]byte(nil), dg[:len(dg)-1]...),
+				}
+				if len(dg) > 32 {
+					related["truncated-to-32"] = append([]byte(nil), dg[:32]...)
+					related["suffix-replaced"] = append(append([]byte(nil), dg[:32]...), []byte("tag-2")...)
+				}
+				if len(dg) < 32 {
+					related["zero-padded-to-32"] = append(append([]byte(nil), dg...), make([]byte, 32-len(dg))...)
+				}
+				var rn []string
+				for k := range related {
+					rn = append(rn, k)
+				}
+				sort.Strings(rn)
+				for _, k := range rn {
+					check("digest-"+nm+"/"+k, true, w.v, related[k], sigs, sub)
+					check("genuine-again/digest-"+nm+"/after-"+k, false, w.v, dg, sigs, sub)
+				}
+				digest, genuine = saved, genuineSaved
 			}
 		}
 		// fewer than t shares
